@@ -240,7 +240,8 @@ def r3(run):
     if sv is None:
         run.missing("xs::handlers::serve::serve|body", "handlers::serve not found")
         return
-    removes = [c for c in sv.calls() if c.bb in sv.live_blocks() and c.fn.endswith("HashMap::<K, V, S, A>::remove")]
+    removes = [c for c in sv.calls() if c.bb in sv.live_blocks() and (c.fn.endswith(("HashMap::<K, V, S, A>::remove", "HashMap::<K, V, S, A>::remove_entry"))
+                                                                      or ("OccupiedEntry" in c.fn and c.fn.endswith(("::remove", "::remove_entry"))))]
     run.floor("compaction removes in handlers::serve", len(removes), 1, sv.sp)
     eq_edges = []
     for bb, si in sv.switches():
